@@ -30,7 +30,9 @@ func nodeConfigs() []Config {
 	zeroIdx := vecfc.IndexConfig{}
 	return []Config{
 		DefaultConfig(),
+		{Store: abft.LiteStoreConfig(), Index: vecfc.LiteConfig(), LibMemDB: true}, // over the library's own memorydb
 		{Store: tinyStore, Index: zeroIdx},
+		{Store: tinyStore, Index: zeroIdx, LibMemDB: true},
 		{Store: abft.DefaultStoreConfig(cachescale.Identity), Index: vecfc.IndexConfig{Caches: vecfc.IndexCacheConfig{ForklessCausePairs: 2, HighestBeforeSeqSize: 16, LowestAfterSeqSize: 16}}},
 	}
 }
